@@ -465,7 +465,11 @@ var c20Outcomes = []string{"fail", "conflict", "crashBefore", "crashAfter"}
 func c20Gen(r *Rng, tier string) *c20Scn {
 	s := &c20Scn{Fresh: 100}
 	var steps []c20Step
-	if r.Chance(2, 3) {
+	tlsOnly := r.Chance(1, 8)
+	if tlsOnly {
+		s = c20GenTLSScn(r)
+		steps = s.Steps
+	} else if r.Chance(2, 3) {
 		s.Kind = "init"
 		s.Cfg = c20GenCfg(r)
 		s.NS = s.Cfg.NS
@@ -477,7 +481,9 @@ func c20Gen(r *Rng, tier string) *c20Scn {
 		s.Steps = c20GenSteps(r, s.NS)
 		steps = s.Steps
 	}
-	c20GenStored(r, s, steps)
+	if !tlsOnly {
+		c20GenStored(r, s, steps)
+	}
 	s.Real = r.Chance(1, 60)
 	c20Normalize(s)
 	n := c20CountCalls(s)
@@ -502,6 +508,208 @@ func c20Gen(r *Rng, tier string) *c20Scn {
 		s.Runs = []c20Run{fault(), fault(), ok}
 	default:
 		s.Runs = []c20Run{ok, fault(), ok}
+	}
+	// a concurrent peer initialiser: in most TLS-only scenarios, in a share of the others that have a TLS step
+	hasTLS := false
+	for _, st := range steps {
+		hasTLS = hasTLS || (st.T == "tls" && (st.Server != nil || st.Client != nil))
+	}
+	if hasTLS && ((tlsOnly && r.Chance(5, 6)) || (!tlsOnly && r.Chance(1, 5))) {
+		i := 0
+		if len(s.Runs) > 1 && r.Chance(1, 5) {
+			i = 1
+		}
+		if c20AddPeer(r, s, i) {
+			if i == len(s.Runs)-1 || r.Chance(1, 2) {
+				s.Runs = append(s.Runs, ok) // the repeated run that has to converge
+			}
+			if r.Chance(1, 3) {
+				s.Runs = append(s.Runs, ok)
+			}
+		}
+	}
+	return s
+}
+
+// ---------------------------------------------------------------- the peer
+
+// c20PeerModes: what the concurrent peer has done by the time it gets in front of one of our calls.
+//   complete     - it ran its whole TLS step: CA created / completed unless a complete one is stored, every
+//                  configured leaf secret without material issued from the CA that is then stored
+//   caOnly       - it got as far as storing its CA
+//   leavesOnly   - it found a complete CA and issued the leaves
+//   placeholders - the chart (re)created the secrets as empty placeholders
+var c20PeerModes = []string{"complete", "complete", "complete", "complete", "caOnly", "leavesOnly", "placeholders"}
+
+func c20FindSecret(xs []c20Secret, name string) *c20Secret {
+	for i := range xs {
+		if xs[i].Name == name {
+			return &xs[i]
+		}
+	}
+	return nil
+}
+
+// c20PeerSecrets computes, on the abstract store `st` (the cluster at the moment the peer acts), what a peer
+// initialiser running the TLS steps of `steps` writes. Key pair ids from `kp` on.
+func c20PeerSecrets(st c20Store, steps []c20Step, mode string, kp int) []c20Secret {
+	cur := append([]c20Secret{}, st.Secrets...)
+	out := []c20Secret{}
+	put := func(x c20Secret) {
+		out = append(out, x)
+		if e := c20FindSecret(cur, x.Name); e != nil {
+			*e = x
+		} else {
+			cur = append(cur, x)
+		}
+	}
+	for _, stp := range steps {
+		if stp.T != "tls" || (stp.Server == nil && stp.Client == nil) {
+			continue
+		}
+		refs := []*c20TLSRef{}
+		for _, l := range []*c20TLSRef{stp.Server, stp.Client} {
+			if l != nil {
+				refs = append(refs, l)
+			}
+		}
+		if mode == "placeholders" {
+			for _, n := range append([]string{stp.CA}, func() (ns []string) {
+				for _, l := range refs {
+					ns = append(ns, l.Name)
+				}
+				return
+			}()...) {
+				if c20FindSecret(cur, n) == nil {
+					put(c20Secret{Name: n})
+				}
+			}
+			continue
+		}
+		ca := c20FindSecret(cur, stp.CA)
+		var caBlob *c20Blob
+		signer := 0
+		if ca != nil && ca.Crt != nil && ca.Key != nil {
+			// complete: loaded if certificate and key parse and belong together, otherwise the peer fails here
+			if ca.Crt.T != "c" || ca.Key.T != "k" || ca.Crt.KP != ca.Key.KP {
+				break
+			}
+			signer, caBlob = ca.Crt.KP, ca.Crt
+		} else {
+			if mode == "leavesOnly" {
+				continue
+			}
+			x := c20Secret{Name: stp.CA, Crt: c20CACert(kp), Key: &c20Blob{T: "k", KP: kp}}
+			if ca != nil {
+				x.Meta = ca.Meta
+			}
+			signer, caBlob = kp, x.Crt
+			kp++
+			put(x)
+		}
+		if mode == "caOnly" {
+			continue
+		}
+		failed := false
+		for _, l := range refs {
+			e := c20FindSecret(cur, l.Name)
+			if e != nil && (e.Crt != nil || e.Key != nil || e.CA != nil) {
+				continue
+			}
+			if len(l.DNS) == 0 {
+				failed = true
+				break
+			}
+			x := c20Secret{Name: l.Name, Crt: &c20Blob{T: "c", KP: kp, By: signer, DNS: append([]string{}, l.DNS...)}, Key: &c20Blob{T: "k", KP: kp}, CA: caBlob}
+			if e != nil {
+				x.Others, x.Meta = e.Others, e.Meta
+			}
+			kp++
+			put(x)
+		}
+		if failed {
+			break
+		}
+	}
+	return out
+}
+
+// c20AddPeer lets a concurrent peer initialiser act during run number i of the scenario: preferably right
+// before one of OUR secret writes (i.e. between our Get and our Create / Update), otherwise before a
+// uniformly drawn call. What the peer writes is computed from the cluster as it is at that very moment.
+func c20AddPeer(r *Rng, s *c20Scn, i int) bool {
+	if i >= len(s.Runs) {
+		return false
+	}
+	// the calls of run i without the peer
+	s2 := c20CloneScn(s)
+	s2.Peer = nil
+	s2.Runs = append(append([]c20Run{}, s.Runs[:i]...), s.Runs[i])
+	obs, _ := c20RunScn(s2)
+	log := obs.Runs[i].Log
+	if len(log) == 0 {
+		return false
+	}
+	writes := []int{}
+	for k, l := range log {
+		if strings.HasPrefix(l, "create:S:") || strings.HasPrefix(l, "update:S:") {
+			writes = append(writes, k)
+		}
+	}
+	k := r.Intn(len(log))
+	if len(writes) > 0 && r.Chance(5, 6) {
+		k = Pick(r, writes)
+	}
+	// the cluster right before call k of run i
+	s3 := c20CloneScn(s)
+	s3.Peer = nil
+	s3.Runs = append(append([]c20Run{}, s.Runs[:i]...), c20Run{K: k, O: "crashBefore"})
+	obs3, _ := c20RunScn(s3)
+	secs := c20PeerSecrets(obs3.Runs[i].Store, (&c20World{}).stepsOf(s), Pick(r, c20PeerModes), 50)
+	if len(secs) == 0 {
+		return false
+	}
+	s.Peer = append(s.Peer, c20Peer{Run: i, Before: k, Secrets: secs})
+	return true
+}
+
+// c20GenTLSScn: a scenario about the TLS step alone (fresh cluster, partially initialised cluster, empty
+// placeholder secrets as the Helm chart creates them) - the ones a concurrent peer matters for.
+func c20GenTLSScn(r *Rng) *c20Scn {
+	s := &c20Scn{Fresh: 100, Kind: "steps", NS: Pick(r, []string{"crossplane-system", "xp"})}
+	stp := c20Step{T: "tls", CA: "crossplane-root-ca"}
+	if r.Chance(5, 6) {
+		stp.Server = &c20TLSRef{Name: "crossplane-tls-server", DNS: []string{"crossplane-webhooks", "crossplane-webhooks." + s.NS, "crossplane-webhooks." + s.NS + ".svc"}}
+	}
+	if stp.Server == nil || r.Chance(5, 6) {
+		stp.Client = &c20TLSRef{Name: "crossplane-tls-client", DNS: []string{"crossplane." + s.NS}}
+	}
+	s.Steps = []c20Step{stp}
+	if r.Chance(1, 4) {
+		s.Steps = append(s.Steps, c20Step{T: "tls", CA: "crossplane-root-ca", Server: &c20TLSRef{Name: "ess-server", DNS: []string{"*." + s.NS}}})
+	}
+	names := []string{stp.CA}
+	for _, st := range s.Steps {
+		for _, l := range []*c20TLSRef{st.Server, st.Client} {
+			if l != nil {
+				names = append(names, l.Name)
+			}
+		}
+	}
+	switch r.Intn(4) {
+	case 0: // fresh cluster
+	case 1: // the chart's empty placeholders (all or some)
+		for _, n := range names {
+			if r.Chance(4, 5) {
+				x := c20Secret{Name: n}
+				if r.Chance(1, 4) {
+					x.Meta = 1 + r.Intn(3)
+				}
+				s.Store.Secrets = append(s.Store.Secrets, x)
+			}
+		}
+	default: // partially initialised
+		c20GenStored(r, s, s.Steps)
 	}
 	return s
 }
@@ -598,6 +806,21 @@ func c20Normalize(s *c20Scn) {
 	if s.Runs == nil {
 		s.Runs = []c20Run{}
 	}
+	if s.Peer == nil {
+		s.Peer = []c20Peer{}
+	}
+	for i := range s.Peer {
+		if s.Peer[i].Secrets == nil {
+			s.Peer[i].Secrets = []c20Secret{}
+		}
+		for j := range s.Peer[i].Secrets {
+			for _, b := range []*c20Blob{s.Peer[i].Secrets[j].Crt, s.Peer[i].Secrets[j].Key, s.Peer[i].Secrets[j].CA} {
+				if b != nil && b.T == "c" && b.DNS == nil {
+					b.DNS = []string{}
+				}
+			}
+		}
+	}
 }
 
 func c20CloneScn(s *c20Scn) *c20Scn {
@@ -615,5 +838,5 @@ func c20CountCalls(s *c20Scn) int {
 	s2 := c20CloneScn(s)
 	w := c20NewWorld(s2)
 	var junk []Mon
-	return w.runOnce(s2, c20Run{K: -1}, &junk).calls
+	return w.runOnce(s2, -1, c20Run{K: -1}, &junk).calls
 }
